@@ -52,6 +52,7 @@ def instances(tier, seed):
     for c in ("", "00", "4d5a", "ff00ff"):
         out.append(dict(name="Const(bytes %r)" % c, params=dict(kind="constb", c=c)))
     out.append(dict(name="Const(b'ab', Bytes(2))", params=dict(kind="constb2")))
+    out.append(dict(name="Const over a context-sized sub-construct, built twice", params=dict(kind="constctx")))
     for en in sorted(ENUMS):
         for n in (("Int8ub", "Int8sb", "Int64sl") if en != "eneg" else ("Int8sb", "Int16sb")):
             out.append(dict(name="Enum(%s, %s)" % (n, en), params=dict(kind="enum", sub=n, table=en)))
@@ -128,6 +129,21 @@ def _constb2(ctx, C, p):
     data = ctx.bytes("data", 2)
     r = api.outcome(d.parse, data)
     ctx.check("accepted iff equal", r.ok == ctx.fork(ctx.eq(data, b"ab")))
+    return "ok"
+
+
+def _constctx(ctx, C, p):
+    d = mk(C, "Const(1, BytesInteger(this.width, swapped=this.little))")
+    for i in range(2):
+        w = ctx.int("width%d" % i, 1, 4)
+        little = ctx.bool("little%d" % i)
+        wc = ctx.concretize(w)
+        enc = [0] * (wc - 1) + [1]
+        if ctx.fork(little):
+            enc.reverse()
+        r = api.outcome(d.build, None, width=w, little=little)
+        ctx.check("build #%d emits the constant's encoding under the context of THIS call" % i, r.ok and ctx.fork(ctx.eq(r.value, mkbytes(enc))))
+        ctx.check("and the bytes it emitted parse back under the same context", api.outcome(d.parse, r.value, width=w, little=little).ok)
     return "ok"
 
 
@@ -273,11 +289,15 @@ def _flags(ctx, C, p):
     ctx.check("a dict of flags builds the union of the selected values", ctx.eq(built, getattr(C, n).build(total)))
     names = list(table)
     if names:
+        import itertools
+        combos = [names[:2], names[-2:], [names[0], names[0]], names] + [list(c) for c in itertools.combinations(names, 2)][:6]
+        for combo in combos:
+            s = " | ".join(combo) if len(combo) % 2 else "|".join(combo)
+            tot = 0
+            for k in combo:
+                tot |= table[k]
+            ctx.check("string spelling %r builds the union of its labels (overlapping / repeated labels included)" % s, ctx.eq(d.build(s), getattr(C, n).build(tot)))
         s = "|".join(names[:2])
-        tot = 0
-        for k in names[:2]:
-            tot |= table[k]
-        ctx.check("'a|b' string spelling builds the union", ctx.eq(d.build(s), getattr(C, n).build(tot)))
         ctx.check("attribute spelling builds", ctx.eq(d.build(getattr(d, names[0])), getattr(C, n).build(table[names[0]])))
     for bad in ("nosuch", "a|nosuch", dict(nosuch=True)):
         r = api.outcome(d.build, bad)
